@@ -70,10 +70,23 @@ Definition obs_judge := judge obs_model obs_oeqb obs_ok (fun _ => 0%N).
 Definition build_in := (N * N * outcome * query * option cons)%type.
 Definition build_model (i : build_in) : outcome := let '(max, n, prev, q, co) := i in get_outcome max n prev q co.
 
+(* strictly ascending (hence no element twice) *)
+Fixpoint strict_ascb (l : list N) : bool :=
+  match l with x :: ((y :: _) as r) => N.ltb x y && strict_ascb r | _ => true end.
+(* C05_reported_roots_sorted on the implementation's outcome: in a building round without retry, when the agreed roots
+   have one root per chain, the reported roots are strictly ascending by chain selector (sorted, one per chain) -
+   with or without a bundle *)
+Definition build_order_ok (prev : outcome) (q : query) (co : option cons) (o : outcome) : bool :=
+  match next_state (o_type prev), q_retry q, co with
+  | Building, false, Some c =>
+      if nodupb N.eqb (map root_chain (c_roots c)) then strict_ascb (map root_chain (o_roots o)) else true
+  | _, _, _ => true
+  end.
 Definition build_ok (i : build_in) (o : outcome) : bool :=
   let '(max, n, prev, q, co) := i in
   (* signatures only together with roots (previous outcomes in this part satisfy it too) *)
   (match o_roots o with [] => match o_sigs o with [] => true | _ => false end | _ => true end) &&
+  build_order_ok prev q co o &&
   match next_state (o_type prev), q_retry q, co, q_sigs q with
   | Building, false, Some c, Some b =>
       match parse_sigs (b_sigs b), parse_lanes (b_lanes b) with
